@@ -6,6 +6,17 @@ from ..absint import wrappers
 
 
 def run(prog: Program, rep: Report, tier: str) -> None:
+    from ..absint import domain as _dom
+    if tier == 'thorough':
+        _dom.refine([-2.0, -0.5, 0.5, 2.0])
+        rep.notes.append('thorough tier: abstract partition refined with cut points -2, -0.5, 0.5, 2 (16 numeric classes)')
+    try:
+        _run(prog, rep, tier)
+    finally:
+        _dom.refine([])
+
+
+def _run(prog: Program, rep: Report, tier: str) -> None:
     rep.rule('C06-D1', 'element-wise wrapper homomorphism: for every element-wise PatternedTensor method (unary maps and in-place forms, nan_to_num_, comparisons / arithmetic with a scalar, clamp, to) the function applied to `physical`, the function applied to `default` and the torch op of that name agree on every input class, and the default path never raises where torch returns nan/inf')
     rep.rule('C06-D2', 'pattern-aware binary ops: every commutative(u, I, D, op_) passes the identity of op_ as I and D == op(t.default, u.default); the constants the sub/div shortcuts compare defaults with are the right identities; result defaults of sub/div equal the torch op on the defaults')
     rep.not_decided += ['everything pattern-combinatorial: expansion/anti-unification, where, stack, reshape, __getitem__, any, injectivity of constructed patterns (depends on runtime axis trees)',
